@@ -8,17 +8,55 @@ import (
 
 // Goroutine identities for the auto-instrumented build flavour. Hand-placed hooks pass the actor id
 // explicitly; the automatically inserted yields do not know it and look the calling goroutine up here.
-// Used in plain (non-race) builds only.
+
+// The tables below are shared by all goroutines of a run. In the race-detector builds nothing the simulator shares may
+// be visible to the detector: a mutex would order the actors (and hide races of the code under test), a map would be
+// reported itself. So the tables are fixed arrays, touched only by //go:norace functions, under a mutex that is taken
+// inside a RaceDisable region (the detector ignores its synchronisation).
+const goidTabSize = 1 << 13
+
+type goidEnt struct {
+	goid    uint64
+	who     int
+	call    int
+	hasWho  bool
+	hasCall bool
+}
 
 var (
-	goidMu   sync.Mutex
-	goidWho  = map[uint64]int{}
-	autoMode bool
-	spawnSeq int
-	// several concurrent calls in one run (crowd runs): which call a goroutine belongs to, inherited through Spawn/Bind
-	callOf    = map[uint64]int{}
-	spawnCall = map[int]int{}
+	goidMu    sync.Mutex
+	goidTab   [goidTabSize]goidEnt
+	goidUsed  int
+	autoMode  bool
+	spawnSeq  int
+	spawnCall [goidTabSize]int // call of the goroutine that executed the k-th go statement (index k mod size)
 )
+
+func goidLock()   { raceDisable(); goidMu.Lock() }
+func goidUnlock() { goidMu.Unlock(); raceEnable() }
+
+// goidSlot returns the entry of goroutine g (creating it if asked to); the caller holds goidMu.
+//
+//go:norace
+func goidSlot(g uint64, create bool) *goidEnt {
+	i := int(g*0x9E3779B97F4A7C15>>40) & (goidTabSize - 1)
+	for n := 0; n < goidTabSize; n++ {
+		e := &goidTab[i]
+		if e.goid == g {
+			return e
+		}
+		if e.goid == 0 {
+			if !create || goidUsed >= goidTabSize/2 {
+				return nil
+			}
+			goidUsed++
+			e.goid = g
+			return e
+		}
+		i = (i + 1) & (goidTabSize - 1)
+	}
+	return nil
+}
 
 // Progress is incremented by the scheduler and by every yield; a watchdog outside the bubble uses it to
 // tell a stalled run (an actor spinning or blocked on a mutex while its peer is parked) from a slow one.
@@ -43,14 +81,15 @@ func LockAcquire(try func() bool) {
 }
 
 // EnableAuto switches goroutine-identity tracking on for the current run and forgets earlier bindings.
+//
+//go:norace
 func EnableAuto() {
-	goidMu.Lock()
+	goidLock()
 	autoMode = true
-	goidWho = map[uint64]int{}
-	callOf = map[uint64]int{}
-	spawnCall = map[int]int{}
+	goidTab = [goidTabSize]goidEnt{}
+	goidUsed = 0
 	spawnSeq = 0
-	goidMu.Unlock()
+	goidUnlock()
 }
 
 func curGoid() uint64 {
@@ -71,57 +110,94 @@ func curGoid() uint64 {
 const CallStride = 1000
 
 // BindCall says that the calling goroutine (and everything it spawns) belongs to call c of a crowd run.
+//
+//go:norace
 func BindCall(c int) {
 	g := curGoid()
-	goidMu.Lock()
-	callOf[g] = c
-	goidMu.Unlock()
+	goidLock()
+	if e := goidSlot(g, true); e != nil {
+		e.call, e.hasCall = c, true
+	}
+	goidUnlock()
+}
+
+// CurrentCall returns the call of a crowd run the calling goroutine belongs to (0 outside crowd runs).
+//
+//go:norace
+func CurrentCall() int {
+	g := curGoid()
+	c := 0
+	goidLock()
+	if e := goidSlot(g, false); e != nil {
+		c = e.call
+	}
+	goidUnlock()
+	return c
 }
 
 // bindExplicit records the explicit actor id of the calling goroutine and returns it shifted into its call's range.
+//
+//go:norace
 func bindExplicit(who int) int {
 	if !autoMode {
 		return who
 	}
 	g := curGoid()
-	goidMu.Lock()
-	who += callOf[g] * CallStride
-	goidWho[g] = who
-	goidMu.Unlock()
+	goidLock()
+	if e := goidSlot(g, true); e != nil {
+		who += e.call * CallStride
+		e.who, e.hasWho = who, true
+	}
+	goidUnlock()
 	return who
 }
 
 // Spawn is called by the goroutine that is about to execute a go statement; it returns the provisional
 // identity of the new goroutine. Exactly one actor runs at a time, so the sequence is deterministic.
+//
+//go:norace
 func Spawn() int {
 	g := curGoid()
-	goidMu.Lock()
+	goidLock()
 	spawnSeq++
 	id := 1000000 + spawnSeq
-	spawnCall[id] = callOf[g]
-	goidMu.Unlock()
+	c := 0
+	if e := goidSlot(g, false); e != nil {
+		c = e.call
+	}
+	spawnCall[spawnSeq&(goidTabSize-1)] = c
+	goidUnlock()
 	return id
 }
 
 // Bind is the first thing a spawned goroutine does in the instrumented build.
+//
+//go:norace
 func Bind(id int) {
 	g := curGoid()
-	goidMu.Lock()
-	if _, ok := goidWho[g]; !ok {
-		goidWho[g] = id
+	goidLock()
+	if e := goidSlot(g, true); e != nil {
+		if !e.hasWho {
+			e.who, e.hasWho = id, true
+		}
+		if k := id - 1000000; k > 0 && k <= spawnSeq {
+			e.call, e.hasCall = spawnCall[k&(goidTabSize-1)], true
+		}
 	}
-	if c, ok := spawnCall[id]; ok {
-		callOf[g] = c
-	}
-	goidMu.Unlock()
+	goidUnlock()
 }
 
 // AutoYield is the body of an automatically inserted yield.
+//
+//go:norace
 func AutoYield(site string) {
 	g := curGoid()
-	goidMu.Lock()
-	who, ok := goidWho[g]
-	goidMu.Unlock()
+	goidLock()
+	who, ok := 0, false
+	if e := goidSlot(g, false); e != nil {
+		who, ok = e.who, e.hasWho
+	}
+	goidUnlock()
 	if !ok {
 		return // a goroutine the simulator knows nothing about: do not schedule it
 	}
@@ -143,8 +219,9 @@ func SetSelectSeed(seed uint64) {
 
 // Perm returns the poll order of a select with n cases.
 func Perm(n int) []int {
-	k := selectCount.Add(1)
-	x := Mix(selectSeed.Load(), 0x5e1ec7, k)
+	var k, seed uint64
+	Hidden(func() { k, seed = selectCount.Add(1), selectSeed.Load() }) // invisible to the race detector
+	x := Mix(seed, 0x5e1ec7, k)
 	p := make([]int, n)
 	for i := range p {
 		p[i] = i
